@@ -3897,3 +3897,58 @@ mod tests {
         );
     }
 }
+
+/// Hooks for the out-of-tree /verif machinery (feature `verif-hooks`, off by default):
+/// detached entries with a caller-chosen change id, as the `cfg(test)` constructors build them.
+#[cfg(feature = "verif-hooks")]
+pub mod verif {
+    use super::*;
+
+    /// As the test-only `into_sealed_committed`, with explicit cid and id.
+    pub fn sealed_committed(
+        mut e: Entry<EntryInit, EntryNew>,
+        cid: Cid,
+        id: u64,
+    ) -> Entry<EntrySealed, EntryCommitted> {
+        let cv = vs_cid![cid.clone()];
+        let _ = e.attrs.insert(Attribute::LastModifiedCid, cv);
+        let cv = vs_cid![cid.clone()];
+        let _ = e.attrs.insert(Attribute::CreatedAtCid, cv);
+        let ecstate = EntryChangeState::new_without_schema(&cid, &e.attrs);
+        let uuid = e.get_uuid().unwrap_or_else(Uuid::new_v4);
+        Entry {
+            valid: EntrySealed { uuid, ecstate },
+            state: EntryCommitted { id },
+            attrs: e.attrs,
+        }
+    }
+
+    /// As the test-only `into_sealed_new`, with explicit cid.
+    pub fn sealed_new(mut e: Entry<EntryInit, EntryNew>, cid: Cid) -> Entry<EntrySealed, EntryNew> {
+        let cv = vs_cid![cid.clone()];
+        let _ = e.attrs.insert(Attribute::LastModifiedCid, cv);
+        let cv = vs_cid![cid.clone()];
+        let _ = e.attrs.insert(Attribute::CreatedAtCid, cv);
+        let ecstate = EntryChangeState::new_without_schema(&cid, &e.attrs);
+        let uuid = e.get_uuid().unwrap_or_else(Uuid::new_v4);
+        Entry {
+            valid: EntrySealed { uuid, ecstate },
+            state: EntryNew,
+            attrs: e.attrs,
+        }
+    }
+
+    /// As the test-only `into_invalid_new`, with explicit cid.
+    pub fn invalid_new(mut e: Entry<EntryInit, EntryNew>, cid: Cid) -> Entry<EntryInvalid, EntryNew> {
+        let cv = vs_cid![cid.clone()];
+        let _ = e.attrs.insert(Attribute::LastModifiedCid, cv);
+        let cv = vs_cid![cid.clone()];
+        let _ = e.attrs.insert(Attribute::CreatedAtCid, cv);
+        let ecstate = EntryChangeState::new_without_schema(&cid, &e.attrs);
+        Entry {
+            valid: EntryInvalid { cid, ecstate },
+            state: EntryNew,
+            attrs: e.attrs,
+        }
+    }
+}
